@@ -42,7 +42,20 @@ fn usage() -> ! {
     std::process::exit(2)
 }
 
+extern "C" {
+    fn signal(signum: i32, handler: extern "C" fn(i32)) -> usize;
+}
+
+/// SIGABRT: the code under test aborted the process (see report::aborted). Runs on the aborting
+/// thread, so the thread-local worker index identifies the case.
+extern "C" fn on_abort(_sig: i32) {
+    report::aborted(par::current_rank_of_this_thread());
+}
+
 fn main() {
+    unsafe {
+        signal(6, on_abort);
+    }
     // Quiet panic messages from the code under test: every call is wrapped in catch_unwind and
     // the payload is recorded; the default hook would flood stderr.
     std::panic::set_hook(Box::new(|info| {
